@@ -177,7 +177,8 @@ BANGOP_TEXTS = ["!add", "!and", "!cast", "!con", "!dag", "!div", "!empty", "!eq"
                 "!listsplat", "!logtwo", "!lt", "!mul", "!ne", "!not", "!or", "!range", "!repr", "!setdagarg",
                 "!setdagname", "!setdagop", "!shl", "!size", "!sra", "!srl", "!strconcat", "!sub", "!subst",
                 "!substr", "!tail", "!tolower", "!toupper", "!xor"]
-IDS = ["A", "B", "Foo", "Bar", "x", "y", "i", "Inst", "Reg", "v1", "_t", "NAME"]
+# (the last three are names the indexer itself makes up: anonymous records and records instantiated by a defm)
+IDS = ["A", "B", "Foo", "Bar", "x", "y", "i", "Inst", "Reg", "v1", "_t", "NAME", "anonymous_0", "anonymous_1", "m_q"]
 
 
 def tok_text(rng, kind):
@@ -362,3 +363,30 @@ def prep_nests(rng, depth):
             s += "#endif\n"
             parts.append(s)
     return "".join(parts)
+
+
+NESTERS = [("defvar x = ", "[", "1", "]", ";"), ("defvar x = ", "(a ", "", ")", ";"), ("defvar x = ", "!add(1, ", "1", ")", ";"),
+           ("defvar x = ", "{", "1", "}", ";"), ("class A { ", "list<", "int", ">", " f; }"), ("", "if 1 then ", "def x;", "", ""),
+           ("", "let a = 1 in { ", "", "}", ""), ("", "foreach i = [1] in { ", "", "}", ""), ("defvar x = ", "A<", "1", ">", ";"),
+           ("defvar x = a", "[b", "", "]", ";"), ("defvar x = ", "!cond(1: ", "1", ")", ";"), ("def r : ", "B<", "1", ">", ";"),
+           ("defvar x = ", "!foreach(i, [1], ", "i", ")", ";"), ("def d { dag g = ", "(op ", "1", ")", "; }"),
+           ("", "#ifdef X\n", "class I;\n", "#endif\n", ""), ("", "/*", " c ", "*/", ""), ("", "multiclass M { ", "", "}", "")]
+TAILS = ["", "\ndef After;\n// trailing comment\n", "\n#ifdef Q\nclass W;\n#else\n\"open\n#endif\nclass Z { int f = \"é\"; }\n", " \"unterminated"]
+
+
+def deep_nests(rng, quick):
+    """bracket / statement / directive nesting at boundary depths (2^k-1, 2^k, 2^k+1 and round numbers), alone and mixed, each
+    followed by a tail that must survive: statements, a comment, a conditional region, a lexical error"""
+    depths = sorted(set([1, 2, 3, 5, 8, 13, 21, 34, 55, 89, 100, 144, 200, 233, 250, 300] + [2 ** k + d for k in range(3, 10 if quick else 11) for d in (-1, 0, 1)]))
+    out = []
+    for d in depths:
+        picks = NESTERS if d in (64, 128, 129, 256, 257) or not quick else rng.sample(NESTERS, 6)
+        for pre, op, mid, cl, post in picks:
+            out.append(pre + op * d + mid + cl * d + post + rng.choice(TAILS))
+            if rng.random() < 0.3:
+                out.append(pre + op * d + rng.choice(TAILS))          # never closed
+        # mixed value nesting: d levels drawn from the value nesters
+        vals = [n for n in NESTERS if n[0].startswith("defvar x = ") and n[1] not in ("[b",)]
+        seq = [rng.choice(vals) for _ in range(d)]
+        out.append("defvar x = " + "".join(n[1] for n in seq) + "1" + "".join(n[3] for n in reversed(seq)) + ";" + rng.choice(TAILS))
+    return out
